@@ -32,10 +32,10 @@ type c10Case struct {
 }
 
 type c10Doc struct {
-	doc    *openapi3.T
-	err    string
-	mux    routers.Router
-	legacy routers.Router
+	doc               *openapi3.T
+	err               string
+	mux               routers.Router
+	legacy            routers.Router
 	muxErr, legacyErr string
 }
 
